@@ -61,6 +61,9 @@ type world struct {
 	// failRemaining: number of upcoming factory calls that fail (set by an environment
 	// choice before a Get: 3 = every retry of one Get fails)
 	failRemaining int
+	// the real Close stops the idle and scale-in timers first, and timer.Stop waits for a
+	// running callback: model that with one lock per timer and a stopped flag
+	idleBusy, capBusy, timersStopped bool
 }
 
 var w *world
@@ -154,15 +157,31 @@ func runThread(w *world, name, prog string) {
 			w.nHeld--
 			w.rp.Put(rr)
 		case 'I':
+			vsched.PointIf("timer", "idle", func() bool { return !w.idleBusy })
+			if w.timersStopped {
+				continue
+			}
+			w.idleBusy = true
 			vclock.Advance(11 * time.Second)
 			util.VerifCloseIdle(w.rp)
+			w.idleBusy = false
 		case 'S':
+			vsched.PointIf("timer", "cap", func() bool { return !w.capBusy })
+			if w.timersStopped {
+				continue
+			}
+			w.capBusy = true
 			vclock.Advance(61 * time.Second)
 			util.VerifScaleIn(w.rp)
+			w.capBusy = false
 		case 'C':
 			i++
 			w.rp.SetCapacity(int(prog[i] - '0'))
 		case 'X':
+			// Close() = idleTimer.Stop(); capTimer.Stop(); ScaleCapacity(0)
+			vsched.PointIf("timer.stop", "idle", func() bool { return !w.idleBusy })
+			vsched.PointIf("timer.stop", "cap", func() bool { return !w.capBusy })
+			w.timersStopped = true
 			w.rp.Close()
 		}
 	}
